@@ -1,6 +1,7 @@
 from props import l2_queries as L
 from props.common import *
-QUERIES = [L.REWIND_ROUNDTRIP, L.STEP_FAILED, L.END_OF_SCRIPT, L.CTOR]
+from props import C05 as _C05
+QUERIES = [L.REWIND_ROUNDTRIP, L.STEP_FAILED, L.END_OF_SCRIPT, L.CTOR, L.SETUP] + [q for q in _C05.QUERIES if q.name == 'tap_description_m4']
 META = {'level': 'other', 'trusted_base': TRUSTED,
  'assumptions': ASSUME_COMMON + [
    "claimed: the position-marker arithmetic only (curr_op_seq): +1 on every successful operation, script-switch and commitment step, unchanged on a failed step and on the finishing step, restored by rewind, 0 in a fresh session",
@@ -8,7 +9,7 @@ META = {'level': 'other', 'trusted_base': TRUSTED,
  ],
  'explanation': 'marker clauses of the L2 session contracts'}
 MANIFEST = {
- 'text': 'Marker invariant only: the position marker is 0 in a fresh session, advances by exactly one on every successful operation / script-switch step, does not move on a failed step or on the finishing step, and is restored by rewind - for every session state. The listing text itself is outside reach.',
+ 'text': 'Marker invariant, session creation and commitment listing: a session created for an empty first script with a script to follow is not finished (the marker has operations to visit); the i-th line of the commitment listing shows the i-th path node of the control block; the position marker is 0 in a fresh session, advances by exactly one on every successful operation / script-switch step, does not move on a failed step or on the finishing step, and is restored by rewind - for every session state. The listing text itself is outside reach.',
  'note': 'The listing builder in main() and fn_print are not applicable (iostream/snprintf code in a 500-line main).',
  'technique': 'assume/assert contracts on the real StepScript(InterpreterEnv&)/RewindScript/InterpreterEnv constructor; CBMC',
  'design_ref': 'DESIGN.md 6 (C12)'}
